@@ -8,7 +8,7 @@
     - src/server/ca/bgpsec.rs BgpSecCertificates::create_updates (235-273), create_renewal (281-307)
     - src/server/ca/rc.rs     process_received_cert: re-derivation iff the resources of the received certificate
                               differ (354-473); append_keyroll_activate: renewal of everything under the new key,
-                              NOT filtered by the new key's certificate (560-638)
+                              filtered by the new key's certificate since the repair of F04c (560-638)
 
     Payloads (asn, prefix, max length) are interned as numbers by the harness; [asn_of] gives the origin AS
     and [res_of] the atoms the prefix lies in.  Maps are association lists with HashMap semantics
@@ -116,20 +116,21 @@ Section Derive.
   Definition apply_updates (r : roas) (u : rupd) : roas :=
     mkRoas (rem_all (u_rem u) (ins_all (u_upd u) (ro_simple r))) (rem_all (u_arem u) (ins_all (u_aupd u) (ro_aggr r))).
 
-  (** create_renewal with force = true (750-795, used by key-roll activation, rc.rs:581-592): every ROA is
-      issued again with the authorisations it has; nothing is filtered. *)
-  Definition renewal (r : roas) : rupd :=
-    mkRU (map (fun '(k, _) => (k, make_simple k)) (ro_simple r)) []
-         (map (fun '(a, i) => (a, make_aggr a (ri_auths i))) (ro_aggr r)) [].
-
-  (** The repair proposed for finding F04c (not in the tree): the renewal re-issues only what the certificate of the
-      signing key holds - a simple ROA outside it is removed, an aggregate ROA is re-issued with the authorisations
-      that remain, or removed if none does. *)
+  (** create_renewal with force = true (roa.rs:750-815, used by key-roll activation, rc.rs:581-592), code of record
+      since the repair of finding F04c: the renewal re-issues only what the certificate of the signing key holds - a
+      simple ROA outside it is removed, an aggregate ROA is re-issued with the authorisations that remain, or removed
+      if none does. *)
   Definition renewal_fixed (cert : N) (r : roas) : rupd :=
     mkRU (map (fun '(k, _) => (k, make_simple k)) (filter (fun '(k, _) => held cert k) (ro_simple r)))
          (map fst (filter (fun '(k, _) => negb (held cert k)) (ro_simple r)))
          (flat_map (fun '(a, i) => match filter (held cert) (ri_auths i) with [] => [] | l => [(a, make_aggr a l)] end) (ro_aggr r))
          (flat_map (fun '(a, i) => match filter (held cert) (ri_auths i) with [] => [a] | _ => [] end) (ro_aggr r)).
+
+  (** The originally pinned tree (before the repair of F04c): every ROA issued again with the authorisations it has,
+      nothing filtered. Kept as a regression witness. *)
+  Definition renewal_pinned (r : roas) : rupd :=
+    mkRU (map (fun '(k, _) => (k, make_simple k)) (ro_simple r)) []
+         (map (fun '(a, i) => (a, make_aggr a (ri_auths i))) (ro_aggr r)) [].
 
   (** The payloads the ROAs of a class carry. *)
   Definition payloads (r : roas) : list N :=
@@ -146,11 +147,11 @@ Section Derive.
 
   (** One step of a class's history as far as ROAs are concerned: a change of the routes or of the certificate
       re-derives (certauth.rs route updates; rc.rs:408-424), a key-roll activation renews. *)
-  Inductive rstep := SDerive (routes : list N) (cert : N) | SRenew.
+  Inductive rstep := SDerive (routes : list N) (cert : N) | SRenew (cert : N).      (* SRenew: under the NEW key's certificate *)
   Definition rstep_run (deagg agg : N) (r : roas) (s : rstep) : option roas :=
     match s with
     | SDerive routes cert => match create_updates r routes cert deagg agg with Some u => Some (apply_updates r u) | None => None end
-    | SRenew => Some (apply_updates r (renewal r))
+    | SRenew cert => Some (apply_updates r (renewal_fixed cert r))
     end.
   Definition rsteps_run (deagg agg : N) (r : roas) (l : list rstep) : option roas :=
     fold_left (fun o s => match o with Some r => rstep_run deagg agg r s | None => None end) l (Some r).
@@ -181,9 +182,11 @@ Section Aspa.
     let u := aspa_updated o defs cert in
     if forallb (fun '(c, i) => buildable c (ai_providers i)) u then Some (u, aspa_removed o defs cert) else None.
   Definition aspa_apply (o : aobjs) (u : list (N * ainfo) * list N) : aobjs := rem_all (snd u) (ins_all (fst u) o).
-  (** create_renewal without threshold (282-310): every object again, with the definition it has *)
-  Definition aspa_renewal (o : aobjs) : list (N * ainfo) * list N :=
-    (map (fun '(c, i) => (c, mkAI (ai_providers i) (sign c (ai_providers i)))) o, []).
+  (** create_renewal without threshold (aspa.rs:282-316, key-roll activation): every object whose customer AS the
+      certificate of the signing key holds again, with the definition it has; the others removed (repair of F04c). *)
+  Definition aspa_renewal (cert : N) (o : aobjs) : list (N * ainfo) * list N :=
+    (map (fun '(c, i) => (c, mkAI (ai_providers i) (sign c (ai_providers i)))) (filter (fun '(c, _) => aheld cert c) o),
+     map fst (filter (fun '(c, _) => negb (aheld cert c)) o)).
 End Aspa.
 
 (** * Router certificates (bgpsec.rs:235-273). Keys are interned (AS, router key) pairs. *)
@@ -199,4 +202,8 @@ Section Bgpsec.
   Definition bgp_apply (o : list (N * obj)) (u : list (N * obj) * list N) : list (N * obj) := rem_all (snd u) (ins_all (fst u) o).
   Definition bgp_create_updates (o : list (N * obj)) (defs : list N) (cert : N) : list (N * obj) * list N :=
     (bgp_updated o defs cert, bgp_removed o defs cert).
+  (** create_renewal without threshold (bgpsec.rs:281-318, key-roll activation): certificates whose AS the certificate of
+      the signing key holds are issued again, the others removed (repair of F04c). *)
+  Definition bgp_renewal (cert : N) (o : list (N * obj)) : list (N * obj) * list N :=
+    (map (fun '(k, _) => (k, sign k)) (filter (fun '(k, _) => bheld cert k) o), map fst (filter (fun '(k, _) => negb (bheld cert k)) o)).
 End Bgpsec.
